@@ -144,6 +144,41 @@ def decode_ref(bs):
     return None
 
 
+KEYWORDS = ['in', 'is', 'not', 'let', 'out', 'constraint', 'convert', 'select', 'assert', 'fail', 'TRACE', 'func', 'module', 'import', 'include', 'as', 'map', 'filter', 'reduce', 'true', 'false', 'NULL']
+
+
+def harness_kwboundary(ctx, case):
+    """<keyword><one symbolic symbol character><tail>: a name that merely starts like a keyword is one bareword with its exact text"""
+    b = astb.B(ctx.prog)
+    kw, tail = case['kw'], case['tail']
+    c = ctx.bv('c', 8)
+    # the characters a symbol may contain (reference: ascii letter, digit, `_`, `-`)
+    ctx.assume(z3.Or(z3.And(z3.UGE(c, 0x30), z3.ULE(c, 0x39)), z3.And(z3.UGE(c, 0x41), z3.ULE(c, 0x5a)), z3.And(z3.UGE(c, 0x61), z3.ULE(c, 0x7a)), c == 0x5f, c == 0x2d))
+    text = SymStr(tuple(kw.encode()) + (c,) + tuple(tail.encode()) + (0x20, 0x3b))
+    out = {'reached': True, 'asserts': 1, 'violations': []}
+    r = ctx.call('tokenizer::tokenize', [ctx.call('OffsetStrIter::new', [text]), NONE])
+    toks = tok_list(b, r)
+    m = ctx.model()
+    cv = chr(m.eval(c, model_completion=True).as_long())
+    word = kw + cv + tail
+    concrete = word + ' ;'
+    if toks is None:
+        out['violations'].append({'key': 'C11:keyword-boundary:rejected', 'what': 'the name %r is rejected by the tokenizer' % word, 'case': {'kind': 'tokenize', 'text': concrete}, 'expect': [word, ';']})
+        return out
+    frs = [deref_all(t[1]) for t in toks if t[0] != 'END']
+    good = len(frs) == 2 and toks[0][0] in ('BAREWORD', 'BOOLEAN', 'EMPTY') and (toks[0][2], toks[0][3], toks[0][4]) == (1, 1, 0)
+    if good:
+        fb = seq_items(frs[0]) if type(frs[0]) is not str else tuple(frs[0].encode())
+        wb = tuple(kw.encode()) + (c,) + tuple(tail.encode())
+        good = len(fb) == len(wb) and ctx.valid(z3.And(*[(x if is_sym(x) else z3.BitVecVal(x, 8)) == (y if is_sym(y) else z3.BitVecVal(y, 8)) for x, y in zip(fb, wb)]))
+    if not good:
+        out['violations'].append({'key': 'C11:keyword-boundary:split', 'what': 'the name %r is not one token with its exact text: %r' % (word, [(t[0], str(deref_all(t[1]))) for t in toks]),
+                                  'case': {'kind': 'tokenize', 'text': concrete}, 'expect': [word, ';']})
+    else:
+        out['sample'] = {'name': word, 'token': toks[0][0]}
+    return out
+
+
 def harness_str(ctx, case):
     b = astb.B(ctx.prog)
     out = {'reached': True, 'asserts': 0, 'violations': []}
@@ -311,6 +346,10 @@ def make_judge(v):
             if not out.get('ok'):
                 return v.get('expect') is not None
             return out['tokens'][0]['fragment'] != v.get('expect')
+        if key.startswith('C11:keyword-boundary'):
+            if not out.get('ok'):
+                return True
+            return [t['fragment'] for t in out['tokens'] if t['typ'] != 'END'] != v['expect']
         if key.startswith('C11:operators'):
             if v.get('expect') is None:
                 return bool(out.get('ok'))
@@ -343,6 +382,9 @@ def run(fw):
     fw.explore('operators', harness_ops, ops, fuel=200_000_000)
     fw.explore('strings', harness_str, strs, fuel=200_000_000)
     fw.explore('layout', harness_layout, lay, fuel=500_000_000)
+    kwb = [{'kw': k, 'tail': t} for k in KEYWORDS for t in (['x', ''] if quick else ['x', '', 'flight', '1', '-x', '_'])]
+    fw.bounds['keyword_boundary'] = '%d keywords followed by one symbolic symbol character (letter, digit, _, -) and %d tails' % (len(KEYWORDS), len(kwb) // len(KEYWORDS))
+    fw.explore('keyword-boundary', harness_kwboundary, kwb, fuel=200_000_000)
     for v in fw.violations:
         v['judge'] = make_judge(v)
     fw.assumptions += ['std/alloc builtins (listed); abortable_parser is executed from its own MIR']
